@@ -1,3 +1,53 @@
+//! vp: compiler / package-manager properties (everything except the text-only and LSP ones).
+mod pkgprops;
+
+use vcommon::*;
+
 fn main() {
-    println!("stub");
+    install_panic_hook();
+    let args: Vec<String> = std::env::args().collect();
+    if args.len() < 2 {
+        eprintln!("usage: vp <Cnn> <quick|thorough> | replay <file> | actor ...");
+        std::process::exit(2);
+    }
+    let h = std::thread::Builder::new()
+        .stack_size(512 << 20)
+        .spawn(move || {
+            let tier = args.get(2).map(|s| s.as_str()).unwrap_or("quick").to_string();
+            match args[1].as_str() {
+                "C20" => pkgprops::run_c20(&Ctx::new("C20", &tier)),
+                "C21" => pkgprops::run_c21(&Ctx::new("C21", &tier)),
+                "C22" => pkgprops::run_c22(&Ctx::new("C22", &tier)),
+                "replay" => replay(&args[2]),
+                x => {
+                    eprintln!("unknown command {x}");
+                    std::process::exit(2)
+                }
+            }
+        })
+        .unwrap();
+    let _ = h.join();
+    std::process::exit(2);
+}
+
+fn replay(path: &str) {
+    let txt = std::fs::read_to_string(path).expect("read replay file");
+    let v: serde_json::Value = serde_json::from_str(&txt).expect("json");
+    let prop = v["property"].as_str().unwrap_or("").to_string();
+    let case = &v["case"];
+    let res: Result<(), String> = match prop.as_str() {
+        "C21" => pkgprops::replay_c21(case),
+        _ => Err(format!("no stand-alone replay for {prop}; re-run ./check {prop} with the seed recorded in evidence")),
+    };
+    match res {
+        Ok(()) => {
+            println!("replay: property holds on this input");
+            std::process::exit(0)
+        }
+        Err(e) => {
+            println!("replay: {e}");
+            println!("VIOLATION property={} replay={}", prop, path);
+            std::process::exit(1)
+        }
+    }
 }
